@@ -210,6 +210,7 @@ func c12(r *engine.Report, p *engine.Program) {
 
 	// R4/R5 evaluation order in handleMessageData
 	firewallPathRules(r, p, hmd)
+	ruleOrderRules(r, p)
 
 	// R6 who-may
 	checkCallers(r, p, "R6-who-may", "(*netceptor.Netceptor).forwardMessage", "(*netceptor.Netceptor).handleMessageData")
